@@ -200,7 +200,7 @@ GenImpl == IF "VERIF_IMPL" \in DOMAIN IOEnv THEN IOEnv.VERIF_IMPL ELSE "none"
 \* the driver accepts a replayed step that equals one of them without asking for a trace validation
 AltsOf(s, c) ==
     UNION {{[impl |-> i, kf |-> o.kf, res |-> o.res, post |-> Proj(o.st), cwd |-> CwdPath(o.st), hs |-> HObs(o.st)]
-            : o \in DevOutcomes(i, s, CleanCall(c))} : i \in {"memfs", "orefafs"}}
+            : o \in DevOutcomes(i, s, CleanCall(c))} : i \in {"memfs", "orefafs", "memfs-win", "orefafs-win"}}
 
 Emit(rec) == IF EdgeFile = "" THEN TRUE ELSE CSVWrite("%1$s", <<ToJson(rec)>>, EdgeFile)
 
